@@ -195,6 +195,38 @@ def unusual_grammars():
     add("names_members", 'content = { "a" }\nspan = { content ~ "b" }\nnew = { span? }\nclone = { new ~ "c" }\nres = { clone* ~ "d" }\n'
         'matched = { res | content }\nfmt = { matched }\neq = { "e" }\nhash = { "h" }\ndefault = { "d" }\nInherited = { "i" }\ni = { "i" }\ns = { i ~ "s" }\n'
         'T = { "t" }\nI = { T ~ "i" }\nS = { I? }\nR = { "r" }\n')
+    # more names of the prelude / core / alloc / the runtime's own API: each rule refers to the previous one, so that with
+    # `#[emit_rule_reference]` an accessor named after it is emitted next to the generated `Vec` / `Option` / `Box` code
+    def chain(names):
+        out, prev = [], None
+        for k, n in enumerate(names):
+            body = f'"{letters[k % 26]}"' if prev is None else [f'{prev} ~ "{letters[k % 26]}"?', f'{prev}* ~ "{letters[k % 26]}"',
+                                                                 f'({prev} | "{letters[k % 26]}")+', f'{prev}? ~ {names[0]}'][k % 4]
+            out.append(f"{n} = {{ {body} }}\n")
+            prev = n
+        return "".join(out)
+    def chains(name, names, size=14):
+        # rustc's default recursion_limit (drop-check of the nested content types) is exceeded by a non-recursive chain of
+        # ~30 such rules (reported separately): these grammars are about NAMES, so the chains stay short
+        for k in range(0, len(names), size):
+            add(f"{name}{k // size}", chain(names[k:k + size]))
+    chains("names_prelude", ["Result", "Default", "Debug", "Clone", "Copy", "Iterator", "IntoIterator", "PartialEq", "Eq", "Hash", "Ord",
+                             "PartialOrd", "Sized", "Send", "Sync", "From", "Into", "AsRef", "AsMut", "ToString", "ToOwned", "Fn", "FnMut",
+                             "FnOnce", "Drop", "Extend", "DoubleEndedIterator", "ExactSizeIterator", "TryFrom", "TryInto", "FromIterator"])
+    chains("names_prims", ["u32", "i32", "i64", "u64", "u16", "i8", "i16", "f32", "f64", "u128", "i128", "never", "unit", "slice", "array", "tuple"])
+    chains("names_alloc", ["Cow", "Rc", "Arc", "Cell", "RefCell", "HashMap", "BTreeMap", "BTreeSet", "VecDeque", "PhantomData", "Deref", "Display",
+                           "Formatter", "Error", "Write", "Hasher", "Ordering", "Any", "Borrow", "Pin", "Range"])
+    chains("names_self_adjacent", ["Self_", "self_", "Selfish", "selfie", "super_", "crate_", "_Self", "_self", "SELF", "Super", "Crate"])
+    chains("names_runtime_api", ["res", "content", "span", "T", "R", "Rule", "rules", "generics", "pairs", "Pairs", "Pair", "RuleType", "TypedNode",
+                                 "TypedParser", "ParsableTypedNode", "RuleWrapper", "RuleStruct", "NeverFailedTypedNode", "Storage", "Spanned",
+                                 "wrapper", "iter", "into_iter", "as_ref", "unwrap", "map", "get", "first", "last", "len", "deref", "next",
+                                 "try_parse", "try_parse_partial", "try_check", "check", "parse", "input", "stack", "tracker", "start", "end"])
+    # depth, not names: a NON-recursive chain in which every rule wraps the previous one; 26 rules compile, 31 exceed rustc's
+    # default recursion_limit in the drop-check of the nested content types (known finding F-DEPTH; pest_derive compiles both)
+    add("chain_26_ok", chain([f"q{i}" for i in range(26)]), mutate=False)
+    add("deep_chain_31", chain([f"q{i}" for i in range(31)]), mutate=False)
+    add("names_vec_option_box", 'Vec = { Option* ~ "v" }\nOption = { Box? ~ "o" }\nBox = { "b" ~ (Some | None)? }\nSome = { "s" ~ String }\nNone = { "n" }\n'
+        'String = { "t"+ }\nr = { Vec ~ Option ~ Box ~ (Some | None){2} ~ String* ~ (Vec ~ Option)+ ~ (Box ~ Vec?)* }\n')
     # two names the runtime's macros use unqualified at the expansion site (found by this check; pest_derive compiles both)
     add("name_usize", 'usize = { "x" }\n', mutate=False)
     add("name_inherited", 'INHERITED = { "x" }\n', mutate=False)
@@ -814,7 +846,8 @@ def compile_sample(ctx, sample, tier, stats, attrs="", prefix="b", wsname=None, 
         for g, err in guilty:
             if report:
                 ctx.violations.append({"what": "derive output does not compile for a grammar pest accepts",
-                                       "case": {"grammar": g["text"], "gid": g["gid"], "class": g["class"]}, "rustc": rustc_errors(err)[:1500]})
+                                       "case": {"grammar": g["text"], "gid": g["gid"], "class": g["class"], "options": attrs or "(default)"},
+                                       "rustc": rustc_errors(err)[:1500]})
             else:
                 stats.setdefault("not_compiling_detail", []).append({"gid": g["gid"], "grammar": g["text"][:200], "rustc": rustc_errors(err)[:300]})
         bad = {g["gid"] for g, _ in guilty}
@@ -822,6 +855,112 @@ def compile_sample(ctx, sample, tier, stats, attrs="", prefix="b", wsname=None, 
         current = [_placeholder(g) if g["gid"] in bad else g for g in current]
     stats["compile_gave_up"] = True
     return [], {}
+
+
+# ---------------------------------------------------------------------------------------------
+# oracle A through the real proc macro
+
+def _raw_str(text):
+    n = 1
+    while '"' + "#" * n in text:
+        n += 1
+    return "r" + "#" * n + '"' + text + '"' + "#" * n
+
+
+def refusal_through_proc_macro(ctx, gs, obs, tier, seed, dist):
+    """A sample of the grammars pest's validator (or parser) rejects, plus accepted controls, each as ONE bin target of a
+    cargo package that derives `TypedParser` through the real proc macro (`pest_typed_derive`), rotating through the
+    default and the non-default option sets.  `cargo build --keep-going`: exactly the rejected grammars must fail to
+    build, and rustc's diagnostic for a validator-rejected grammar must carry the validator's message."""
+    quick = tier == "quick"
+    rnd = random.Random(seed * 104729 + 3)
+    per_class = 10 if quick else 40
+    by_cls = {}
+    controls = []
+    for g in gs:
+        o = obs[g["gid"]]
+        if o["parse"] == "err":
+            by_cls.setdefault("syntax", []).append(g)
+        elif o["consume"] == "err":
+            for c in classify_vmsg(o["vmsg"]):
+                by_cls.setdefault(c, []).append(g)
+        elif o["full"] == "ok" and o.get("pgen") != "panic" and g["class"] in FAMILIES and len(g["text"]) < 400:
+            controls.append(g)
+    chosen, seen = [], set()
+    for c in sorted(by_cls):
+        pool = [g for g in by_cls[c] if g["gid"] not in seen and len(g["text"]) < 1500]
+        for g in rnd.sample(pool, min(per_class, len(pool))):
+            seen.add(g["gid"])
+            chosen.append((g, True))
+    for g in rnd.sample(controls, min(16 if quick else 48, len(controls))):
+        chosen.append((g, False))
+    sets = [""] + OPTION_SETS
+    ws = os.path.join(common.BUILD, f"ws_c11_refuse_{tier}")
+    bindir = os.path.join(ws, "src", "bin")
+    subprocess.call(["rm", "-rf", bindir])
+    os.makedirs(bindir, exist_ok=True)
+    open(os.path.join(ws, "Cargo.toml"), "w").write(
+        '[package]\nname = "c11refuse"\nversion = "0.0.0"\nedition = "2021"\n[workspace]\n[dependencies]\n'
+        'pest_typed = { path = "/repo/main" }\npest_typed_derive = { path = "/repo/derive" }\n' + corpus.PROFILE)
+    subprocess.check_call(["cp", "/repo/Cargo.lock", os.path.join(ws, "Cargo.lock")])
+    jobs = {}
+    for k, (g, rejected) in enumerate(chosen):
+        attrs = sets[k % len(sets)]
+        name = f"x{k}"
+        jobs[name] = (g, rejected, attrs)
+        open(os.path.join(bindir, name + ".rs"), "w").write(
+            "#![allow(warnings)]\nuse pest_typed_derive::TypedParser;\n#[derive(TypedParser)]\n#[grammar_inline = "
+            + _raw_str(g["text"]) + "]\n" + attrs + "\npub struct P;\nfn main() {}\n")
+    t0 = time.time()
+    p = _cargo(ws, ["build", "--offline", "--keep-going", "--message-format=json", "--bins"], tier)
+    import json as _json
+    built, errors = set(), {}
+    for line in p.stdout.splitlines():
+        try:
+            j = _json.loads(line)
+        except ValueError:
+            continue
+        tname = (j.get("target") or {}).get("name")
+        if j.get("reason") == "compiler-artifact" and tname in jobs:
+            built.add(tname)
+        elif j.get("reason") == "compiler-message" and tname in jobs and j["message"].get("level") == "error":
+            errors.setdefault(tname, []).append(j["message"].get("rendered") or j["message"].get("message", ""))
+    if not built and not errors:
+        raise RuntimeError("C11 refusal crate: cargo gave neither artifacts nor diagnostics:\n" + p.stderr[-2000:])
+    bad = 0
+    st = {"targets": len(jobs), "rejected": sum(1 for v in jobs.values() if v[1]), "controls": sum(1 for v in jobs.values() if not v[1]),
+          "by_option_set": {}, "build_s": round(time.time() - t0, 1)}
+    for name, (g, rejected, attrs) in jobs.items():
+        o = obs[g["gid"]]
+        text = "\n".join(errors.get(name, []))
+        case = {"grammar": g["text"], "gid": g["gid"], "class": g["class"], "options": attrs or "(default)"}
+        ok_build = name in built and name not in errors
+        os_ = st["by_option_set"].setdefault(attrs or "(default)", {"rejected_refused": 0, "controls_built": 0})
+        if rejected:
+            if ok_build:
+                bad += 1
+                ctx.violations.append({"what": "the derive macro compiled a grammar pest's validator rejects (real proc macro)", "case": case, "validator": o["vmsg"]})
+                continue
+            if name not in errors:
+                raise RuntimeError(f"C11 refusal crate: target {name} neither built nor reported an error:\n" + p.stderr[-1500:])
+            if o["parse"] != "err":
+                want = [re.sub(r"^panic in \w+: ", "", l.strip()) for l in o["vmsg"].split("\n") if l.strip()]
+                if not any(w in text for w in want):
+                    bad += 1
+                    ctx.violations.append({"what": "the derive macro refused a rejected grammar without the validator's message (real proc macro)",
+                                           "case": case, "validator": o["vmsg"], "rustc": text[:800]})
+                    continue
+            os_["rejected_refused"] += 1
+        else:
+            if not ok_build:
+                bad += 1
+                ctx.violations.append({"what": "the derive macro refused or mis-compiled a grammar pest accepts (real proc macro)", "case": case, "rustc": text[:1200]})
+                continue
+            os_["controls_built"] += 1
+    ctx.evaluations += len(jobs)
+    ctx.ties["derive-vs-validator:proc-macro"] = {"cases": len(jobs), "agree": len(jobs) - bad,
+                                                  "observables": ["cargo build fails/succeeds per bin target", "validator message in rustc's diagnostic"]}
+    dist["refusal_through_proc_macro"] = st
 
 
 # ---------------------------------------------------------------------------------------------
@@ -1068,6 +1207,44 @@ def lean_static(ctx, compiled, sexp_path, cmd="wf", which=3, label=""):
     ctx.coverage.setdefault("distribution", {})["wellfounded_static" + label] = {
         "compiled": n, "lean_and_analyse": both, "lean_only(analyse stricter: bounded repetitions in the raw AST, atomic rule kinds)": lean_only,
         "not_wellfounded": neither, "failing_hypothesis": why}
+    return rep
+
+
+def emitted_static(ctx, glist, model_rep, attrs, label, path):
+    """`wfCheck` evaluated on the module the REAL generator emits: harness/tgen_tool (the extractor of the T-gen tie) turns
+    the token stream of `derive_typed_parser` into a `(nodegrammar …)` S-expression, `model_driver` loads it and answers
+    `wf e_<gid>`; this verdict (kernel-checked sound for every module: `C11_wfCheck_sound_emitted`, `C11_emitted_terminates`)
+    is the one oracle C uses.  Tie `wf-static<label>:emitted-vs-model`: it equals `wfCheck` of the Lean model's
+    `gen` / `genWith` of pest_meta's AST in every field (verdict, failing hypothesis, rank bound, depth, nullable rules)."""
+    from . import tgen
+    tgen.ensure_tool()
+    res = tgen.run_tool([(g, attrs) for g in glist])
+    lines, ok, skipped = [], [], []
+    for g, (st, txt) in zip(glist, res):
+        if st == "OK" and "(unsupported" not in txt and "(problem" not in txt and txt.startswith("(nodegrammar "):
+            lines.append(re.sub(r"^\(nodegrammar \S+", lambda m: "(nodegrammar e_" + g["gid"], txt))
+            ok.append(g)
+        else:
+            skipped.append({"gid": g["gid"], "why": (st + " " + txt)[:160]})
+    open(path, "w").write("\n".join(lines) + "\n")
+    out = run_driver_lines(path, [f"wf e_{g['gid']}" for g in ok], nproc=4) if ok else []
+    rep, nd = {}, 0
+    name = f"wf-static{label}:emitted-vs-model"
+    for g, l in zip(ok, out):
+        d = suites.parse_obs(l)
+        if "wf" not in d:
+            ctx.tie_broken(name, {"error": "model_driver did not answer `wf` on the emitted module", "gid": g["gid"], "line": l[:200]})
+            nd += 1
+            continue
+        rep[g["gid"]] = d
+        m = model_rep.get(g["gid"], {})
+        keys = ["wf", "nulok", "noleftrec", "progressing", "K", "D", "nul"]
+        if any(d.get(k) != m.get(k) for k in keys):
+            nd += 1
+            if nd <= 5:
+                ctx.tie_broken(name, {"gid": g["gid"], "grammar": g["text"][:400], "options": attrs or "(default)", "emitted": l, "model": {k: m.get(k) for k in keys}})
+    ctx.ties[name] = {"cases": len(ok), "agree": len(ok) - nd, "observables": ["wf", "nulok", "noleftrec", "progressing", "K", "D", "nullable rules"]}
+    ctx.coverage.setdefault("distribution", {})["emitted_modules" + label] = {"extracted": len(ok), "not_extracted(model verdict used)": skipped[:10]}
     return rep
 
 
@@ -1345,6 +1522,9 @@ def check_C11(ctx):
             "leftrec_family_accepted_by_validator": {"count": len(leftrec_accepted), "examples": leftrec_accepted[:6]},
             "first_example_per_error": {k: v[:160] for k, v in examples.items()}}
     ctx.coverage["distribution"] = dist
+    t0 = time.time()
+    refusal_through_proc_macro(ctx, gs, obs, tier, seed, dist)
+    timing["refusal_proc_macro_s"] = round(time.time() - t0, 1)
 
     # ---- oracle B: the accepted grammars compile ----------------------------------------------
     rnd = random.Random(seed * 7919 + 5)
@@ -1397,8 +1577,14 @@ def check_C11(ctx):
     t0 = time.time()
     lean = lean_static(ctx, compiled, sexp_path)
     timing["lean_static_s"] = round(time.time() - t0, 1)
-    wf = [g for g in compiled if lean.get(g["gid"], {}).get("wf") == "1"]
-    not_wf = [g for g in compiled if lean.get(g["gid"], {}).get("wf") != "1"]
+    t0 = time.time()
+    lean_e = emitted_static(ctx, compiled, lean, "", "", os.path.join(common.BUILD, f"c11_{tier}_emitted.sexp"))
+    timing["emitted_static_s"] = round(time.time() - t0, 1)
+
+    def wf_of(g, e=lean_e, m=lean):      # the verdict on the EMITTED module; the model's where the extractor gave none
+        return e.get(g["gid"], m.get(g["gid"], {})).get("wf") == "1"
+    wf = [g for g in compiled if wf_of(g)]
+    not_wf = [g for g in compiled if not wf_of(g)]
     dist["compiled_wellfounded"] = len(wf)
     dist["compiled_wellfounded_by_corpus_analyse"] = sum(g["wf_reason"] is None for g in compiled)
     dist["compiled_not_wellfounded"] = len(not_wf)
@@ -1460,12 +1646,30 @@ def check_C11(ctx):
     counted = [g for g in wf if has_counted(g)]
     nraw = 120 if quick else 500
     counted = [g for g in counted if g.get("counted")] + [g for g in counted if not g.get("counted")][:max(0, nraw - sum(bool(g.get("counted")) for g in counted))]
+    # … and every hand-written / systematic grammar (names, 13-/17-/33-ary choices, nested and big counted repetitions, …) is
+    # compiled under this option as well: "emits code that compiles" is not limited to the default options
+    cgids = {g["gid"] for g in counted}
+    raw_set = counted + [g for g in compiled if g["gid"] not in cgids and (g.get("unusual") or g["gid"].startswith("s_"))]
     rstats = {}
-    raw_compiled, raw_where = compile_sample(ctx, counted, tier, rstats, attrs=RAW, prefix="c", wsname=os.path.join(common.BUILD, f"ws_c11_raw_{tier}"),
-                                             report=False) if counted else ([], {})
+    raw_compiled, raw_where = compile_sample(ctx, raw_set, tier, rstats, attrs=RAW, prefix="c", wsname=os.path.join(common.BUILD, f"ws_c11_raw_{tier}"),
+                                             report=True) if raw_set else ([], {})
     timing["raw_compile_s"] = round(time.time() - t0, 1)
+    ctx.evaluations += len(raw_set)
+    # accessor code: `#[emit_rule_reference]` makes the generator emit getters (`Vec`, `Option`, `Box` paths next to rule
+    # structs of any name): the name-collision, keyword and systematic grammars must compile with it too
+    t0 = time.time()
+    ACC = "#[emit_rule_reference]"
+    acc_set = [g for g in compiled if g.get("unusual") or g["gid"].startswith("s_")]
+    astats = {}
+    acc_compiled, _ = compile_sample(ctx, acc_set, tier, astats, attrs=ACC, prefix="a", wsname=os.path.join(common.BUILD, f"ws_c11_acc_{tier}"),
+                                     report=True) if acc_set else ([], {})
+    timing["accessor_compile_s"] = round(time.time() - t0, 1)
+    ctx.evaluations += len(acc_set)
+    dist["compile_other_options"] = {RAW: {"grammars": len(raw_set), "compiled": len(raw_compiled), "not_compiling": rstats.get("not_compiling", [])},
+                                     ACC: {"grammars": len(acc_set), "compiled": len(acc_compiled), "not_compiling": astats.get("not_compiling", [])}}
     lean_raw = lean_static(ctx, raw_compiled, sexp_path, cmd="wfraw", which=4, label="[raw]") if raw_compiled else {}
-    raw_wf = [g for g in raw_compiled if lean_raw.get(g["gid"], {}).get("wf") == "1"]
+    lean_raw_e = emitted_static(ctx, raw_compiled, lean_raw, RAW, "[raw]", os.path.join(common.BUILD, f"c11_{tier}_emitted_raw.sexp")) if raw_compiled else {}
+    raw_wf = [g for g in raw_compiled if g["gid"] in cgids and wf_of(g, lean_raw_e, lean_raw)]
     t0 = time.time()
     raw_cases = cases_for(raw_wf, 1200000 if quick else 4000000)
     raw_lines = run_bins_bounded("c", raw_where, raw_cases, os.path.join(common.BUILD, f"ws_c11_raw_{tier}", "bin")) if raw_cases else []
@@ -1474,7 +1678,7 @@ def check_C11(ctx):
     ctx.evaluations += len(raw_cases)
     dist["run_raw_option"] = {"option": RAW, "grammars_with_counted_repetitions": len(counted), "compiled": len(raw_compiled),
                               "wellfounded_raw_module": len(raw_wf), "from_counted_family": sum(bool(g.get("counted")) for g in raw_wf),
-                              "not_compiling_under_this_option (C20's business)": rstats.get("not_compiling", []),
+                              "not_compiling_under_this_option (reported as violations)": rstats.get("not_compiling", []),
                               "cases": len(raw_cases), "verdicts": raw_verdicts}
     if len(raw_wf) < 30:
         ctx.tie_broken("corpus-coverage", {"error": f"only {len(raw_wf)} well-founded grammars with counted repetitions were run with {RAW} (need >= 30)",
@@ -1487,8 +1691,9 @@ def check_C11(ctx):
         "cannot fail or cannot progress, unreachable alternatives, non-progressing WHITESPACE/COMMENT — grammars only `validate_pairs` rejects, "
         "syntax errors, and seeded tree-edit mutants of the valid grammars.  Oracle A judges every grammar that pest_meta's parse/consume_rules "
         "rejects (derive must panic) or that pest's whole front end accepts (derive must not panic); a grammar is non-trivial when the validator "
-        "rejects it for one of the six listed reasons, or when it is accepted and the generator emitted code.  Oracle B compiles a seeded sample of "
-        "the accepted grammars through the real derive macro; oracle C runs every rule through the four entry points (parse_partial, check_partial, "
+        "rejects it for one of the six listed reasons, or when it is accepted and the generator emitted code.  Oracle A is evaluated under the default and seven non-default option sets, and for a sample through the real proc macro "
+        "(one bin target per grammar: exactly the rejected ones must fail to build, with the validator's message).  Oracle B compiles a seeded sample of "
+        "the accepted grammars through the real derive macro (the hand-written and systematic grammars also with `#[pest_optimizer = false]` and with `#[emit_rule_reference]`); oracle C runs every rule through the four entry points (parse_partial, check_partial, "
         "parse, check) of the compiled grammars that "
         "are statically well-founded (decided by `wfCheck` of the Lean model, proved sound: no rule reaches itself through a nullable prefix, the "
         "implicit skip included; no unbounded repetition body or skip rule body may match empty; stack-reading terminals count as nullable) on all inputs up to length "
@@ -1496,7 +1701,7 @@ def check_C11(ctx):
         "the well-founded grammars that contain a counted repetition (a hand-written family of them nested in `*`/`+`/`{k,}`, under predicates, in atomic rules, "
         "plus those of the sample) are also compiled with `#[pest_optimizer = false]` — the only way RepeatMin/RepeatMinMax are instantiated — and run on the same inputs.  "
         "Outside the property: grammars rejected only by "
-        "validate_pairs (undefined / redefined rules, pest keywords as rule names: no verdict, counted), whether a grammar compiles under non-default options (C20), "
+        "validate_pairs (undefined / redefined rules, pest keywords as rule names: no verdict, counted), compilation under option sets other than the default, `#[pest_optimizer = false]` and `#[emit_rule_reference]` (C20), "
         "and accepted grammars that are not well-founded (e.g. `(PEEK_ALL)*`, `!\"x\" ~ a`, non-atomic WHITESPACE bodies with a nullable prefix): "
         "they are compiled but not run.")
     t0 = time.time()
